@@ -1,18 +1,43 @@
-"""setup_cmd: sanity of the harness itself (import of the library from $VERIF_REPO, monitors, reference-model vectors)."""
+"""setup_cmd: sanity of the harness itself (import of the library from $VERIF_REPO, monitors, reference-model vectors,
+KSY interpreter on a hand-written schema, fault delivery of the traced stream)."""
 import sys
 
 
 def main():
     from .common import import_construct
     c = import_construct()
-    from . import monitors, streams, veq
-    s = streams.TracedStream(b"abc")
-    assert s.read(2) == b"ab" and s.tell() == 2
+    from . import monitors, streams, veq, refmodel, ksy_interp
+    # traced stream + faults
+    s = streams.TracedStream(b"abcdef")
+    assert s.read(2) == b"ab" and s.tell() == 2 and s.seek(1) == 1 and s.read() == b"bcdef"
+    s = streams.TracedStream(b"abcdef", fault=("short", "read", 1))
+    assert s.read(2) == b"ab" and s.read(3) == b"cd" and s.fault_delivered
+    s = streams.TracedStream(b"abcdef", fault=("raisev", "tell", 0))
     try:
-        from . import refmodel
-        refmodel.selftest()
-        print("refmodel selftest ok")
-    except ImportError:
+        s.tell()
+        raise AssertionError("fault not delivered")
+    except ValueError:
         pass
+    s = streams.TracedStream(b"", budget=3)
+    try:
+        for _ in range(5):
+            s.read(0)
+        raise AssertionError("budget not enforced")
+    except streams.BudgetExceeded:
+        pass
+    # reference model
+    refmodel.selftest()
+    # KSY interpreter on a schema written by hand from the Kaitai user guide (not produced by the exporter)
+    schema = {"seq": [{"id": "magic", "contents": [0x4d, 0x5a]}, {"id": "n", "type": "u2le"}, {"id": "flags", "type": "hdr"},
+                      {"id": "name", "type": "strz", "encoding": "ascii"}, {"id": "items", "type": "s2be", "repeat": "expr", "repeat-expr": "n"},
+                      {"id": "opt", "type": "u1", "if": "n > 5"}, {"id": "blob", "size": 3}, {"id": "rest", "size-eos": True, "type": "str", "encoding": "ascii", "pad-right": 0x20}],
+              "types": {"hdr": {"seq": [{"id": "a", "type": "b1"}, {"id": "b", "type": "b3"}, {"id": "c", "type": "b12"}]}}}
+    data = b"MZ" + b"\x02\x00" + bytes([0b10110000, 0b00000101]) + b"hi\x00" + b"\xff\xfe\x00\x07" + b"abc" + b"tail  "
+    t = ksy_interp.interpret(schema, data)
+    v = t["value"]
+    assert v["n"] == 2 and v["flags"] == {"a": True, "b": 3, "c": 5} and v["name"] == "hi" and v["items"] == [-2, 7] and v["opt"] is None and v["blob"] == b"abc" and v["rest"] == "tail", v
+    ext = {k["id"]: (k["start"], k["end"]) for k in t["kids"]}
+    assert ext["flags"] == (4, 6) and ext["name"] == (6, 9) and ext["items"] == (9, 13) and ext["blob"] == (13, 16) and ext["rest"] == (16, 22), ext
+    print("refmodel / ksy_interp / streams selftest ok")
     print("rv selftest ok: construct %s from %s" % (c.__version__, c.__file__))
     return 0
